@@ -678,7 +678,7 @@ _npint = _pair('r4', 'window_npint', (120, 300), '5 source kinds x 4 rows x ever
 _staint = _pair('r4', 'setup_taint', (200, 400), 'FrameItem.setup_from_data: 5 source kinds x 1..3 rows x index type or not x cast (none / float32 / same dtype) x data-dependent masks either way; spacing computation replaced by an opaque result (cut)',
                 ['FrameItem.setup_from_data', 'FrameItem._setup_frame_params_from_data', 'SourceDataWrapper.__getitem__'],
                 replay=R4 + 'replay_setup_taint', validate=R4 + 'replay_setup_taint')
-_longl = _longl + _pair('r4', 'long_list_edges', (300, 600), 'list lengths 9, 12 x first / last position x 8 edges (+-2**31, +-2**32, 2**40, +-2**63, 0) +-2: concrete values (enumeration)',
+_longl = _longl + _pair('r4', 'long_list_edges', (300, 600), 'list lengths 9, 12, 63..65, 128, 257, 1025 (thorough: + 127, 129, 255, 256, 4097, 16384, 16385, 65537; lengths above 12 run untraced) x first / last position x 8 edges (+-2**31, +-2**32, 2**40, +-2**63, 0) +-2: concrete values (enumeration)',
                         ['Attribute._write_values', 'write_struct'], replay=R4 + 'replay_long_list', validate=R4 + 'replay_long_list', shards=(8, 8))
 for _p, _o in (('C01', _sulre), ('C14', _sulre), ('C09', _fhlate), ('C14', _fhlate), ('C07', _alias), ('C05', _alias), ('C14', _alias),
                ('C06', _longl), ('C12', _longl), ('C05', _looka), ('C03', _shared), ('C08', _shared), ('C11', _shared),
